@@ -55,7 +55,12 @@ RULE = ("E2: breadth-first search over ALL operation histories on a real behave.
         "2 modes x 4 write scripts. Read operations {in, hasattr, get, use_or_assign_param, use_or_create_param} x name "
         "origins {preset by __init__ (all of those names), preset then _set_root_attribute, user-mode set, behave-mode "
         "set, _set_root_attribute in either mode} x owner frame x 4 stack shapes x reading mode; the real runs probe "
-        "membership of every preset name at every callback. E3: every placement of <= 3 (thorough 4) cleanup registrations {plain, args, kwargs, generator-fixture "
+        "membership of every preset name at every callback. Re-entrant cleanups: every sequence of <= 3 (thorough 4) "
+        "cleanups of kinds {plain, raising, nested layer (scoped_context_layer) empty / with inner plain cleanup / with "
+        "inner raising cleanup / with a generator fixture / setting+deleting an attribute, sets an attribute} in every "
+        "frame of 4 stack shapes, and every sequence of <= 3 of those kinds + execute_steps in the testrun / feature / "
+        "rule / scenario scope of a real ModelRunner run (LIFO exactly-once log, error raised iff some cleanup raised, "
+        "first error, stack restored, owner status and verdict). E3: every placement of <= 3 (thorough 4) cleanup registrations {plain, args, kwargs, generator-fixture "
         "teardown} x {current frame, layer=each present layer} on 4 stack shapes x EVERY raising subset x {default "
         "on_cleanup_error; custom one up to 2 (thorough 3) registrations}. E1: real ModelRunner runs of a tagged feature + outline + rule program (66-72 "
         "callbacks: all 12 hook kinds and all steps incl. execute_steps sub-steps) whose callbacks probe every name set "
@@ -1687,6 +1692,271 @@ def e1_cases(ncb, quick):
 
 
 # =============================================================================
+# re-entrant cleanups: cleanup functions are user code and may use the context API
+# themselves (open and close a temporary layer, register cleanups on it, use a fixture
+# in it, set/delete attributes, execute steps) - next to raising siblings, in all orders
+# =============================================================================
+RE_KINDS = ("plain", "raising", "nested", "nested+plain", "nested+raising", "nested+fixture", "nested+set", "sets")
+RE_RAISES = {"raising": "outer", "nested+raising": "inner"}
+
+
+def fx_reentrant(context, log, i):
+    yield i
+    log.append(("inner", i))
+
+
+def reentrant_cleanup(kind, i, context, log, excs, depth_of):
+    """the cleanup callable of one kind; logs what it does"""
+    from behave.runner import scoped_context_layer
+    from behave.fixture import use_fixture
+
+    def inner(j):
+        log.append(("inner", j))
+
+    def inner_raising(j):
+        log.append(("inner", j))
+        raise excs[j]
+
+    def cleanup():
+        log.append(("run", i))
+        if kind == "raising":
+            raise excs[i]
+        if kind == "sets":
+            setattr(context, "tmp%d" % i, i)
+        elif kind == "exec":
+            context.execute_steps(u"Given noop")
+        elif kind.startswith("nested"):
+            d0 = depth_of()
+            with scoped_context_layer(context):
+                log.append(("depth", i, depth_of() - d0))
+                if kind == "nested+plain":
+                    context.add_cleanup(inner, i)
+                elif kind == "nested+raising":
+                    context.add_cleanup(inner_raising, i)
+                elif kind == "nested+fixture":
+                    use_fixture(fx_reentrant, context, log, i)
+                elif kind == "nested+set":
+                    context.nested_tmp = i
+                    seen = "nested_tmp" in context and context.nested_tmp == i
+                    del context.nested_tmp
+                    log.append(("vis", i, seen, "nested_tmp" in context))
+            log.append(("depth-after", i, depth_of() - d0))
+    cleanup.__name__ = "cleanup_%d_%s" % (i, kind.replace("+", "_"))
+    return cleanup
+
+
+def reentrant_expected(kinds, noop_event=None):
+    """model: -> (expected log of the scope end, index/kind of the first error or None).
+    noop_event(visible tmp names) gives the event an executed 'noop' step logs"""
+    log, first, tmps = [], None, []
+    for i in reversed(range(len(kinds))):
+        kind = kinds[i]
+        log.append(("run", i))
+        if kind == "sets":
+            tmps.append("tmp%d" % i)
+        elif kind == "exec":
+            log.append(noop_event(tuple(sorted(tmps))))
+        elif kind.startswith("nested"):
+            log.append(("depth", i, 1))
+            if kind == "nested+set":
+                log.append(("vis", i, True, False))
+            if kind in ("nested+plain", "nested+raising", "nested+fixture"):
+                log.append(("inner", i))
+            if kind != "nested+raising":
+                log.append(("depth-after", i, 0))
+        if kind in RE_RAISES and first is None:
+            first = i
+    return log, first
+
+
+def reentrant_trigger(kinds, first):
+    """minimal trigger class of a lost / wrong cleanup error"""
+    if first is None:
+        return "no-cleanup-raises"
+    later = kinds[:first]           # registered earlier = run later
+    if any(k.startswith("nested") or k == "exec" for k in later):
+        return "context-reentering-cleanup-runs-after-the-raising-one"
+    return "%s-cleanup-raises" % RE_RAISES[kinds[first]]
+
+
+def reentrant_cases(maxn):
+    for n in range(1, maxn + 1):
+        for kinds in itertools.product(RE_KINDS, repeat=n):
+            for si in range(len(SHAPES)):
+                for target in range(len(SHAPES[si])):
+                    yield (si, target, kinds)
+
+
+def reentrant_case(case):
+    """(shape, index of the frame that gets the cleanups, kinds in registration order)"""
+    si, target, kinds = case
+    shape = SHAPES[si]
+    with _Quiet():
+        env = Env(handler=False)
+        ctx = env.ctx
+        log, v, obs = [], [], []
+        excs = {i: Boom((RE_RAISES.get(k, "-"), i)) for i, k in enumerate(kinds)}
+        depth_of = lambda: len(ctx._stack)      # noqa: E731
+        for d, layer in enumerate(shape):
+            if d:
+                ctx._push(layer)
+            if d == target:
+                for i, k in enumerate(kinds):
+                    ctx.add_cleanup(reentrant_cleanup(k, i, ctx, log, excs, depth_of))
+        want_log, first = reentrant_expected(kinds)
+        where = "layers %r, cleanups %r registered in %r" % (shape, kinds, shape[target])
+        trig = reentrant_trigger(kinds, first)
+        for d in range(len(shape) - 1, -1, -1):
+            n0 = len(log)
+            exc = None
+            try:
+                if d:
+                    ctx._pop()
+                else:
+                    ctx._do_cleanups()
+            except Exception as e:      # pylint: disable=broad-except
+                exc = e
+            ran = log[n0:]
+            want = want_log if d == target else []
+            want_exc = excs[first] if (d == target and first is not None) else None
+            obs.append((d, tuple(ran), type(exc).__name__ if exc else None))
+            if ran != want:
+                kind, _t = log_diff([("cl",) + tuple(e) for e in ran], [("cl",) + tuple(e) for e in want])
+                v.append(({"subcheck": "reentrant", "clause": "cleanup-log", "kind": kind, "trigger": trig},
+                          "%s: ending %r ran %r, expected %r" % (where, shape[d], ran, want)))
+                break
+            if exc is not want_exc:
+                v.append(({"subcheck": "reentrant", "clause": "cleanup-error-raised", "trigger": trig},
+                          "%s: ending %r raised %r, expected %r" % (where, shape[d], exc, want_exc)))
+                break
+            layers = env.layers()
+            want_layers = shape[:d] if d else shape[:1]
+            if layers != want_layers:
+                v.append(({"subcheck": "reentrant", "clause": "stack", "trigger": trig},
+                          "%s: after ending %r the layers are %r, expected %r" % (where, shape[d], layers, want_layers)))
+                break
+            if d == target:
+                vis = tuple(sorted(n for n in ("tmp0", "tmp1", "tmp2", "tmp3", "nested_tmp") if n in ctx))
+                want_vis = tuple(sorted("tmp%d" % i for i, k in enumerate(kinds) if k == "sets")) if d == 0 else ()
+                if vis != want_vis:
+                    v.append(({"subcheck": "reentrant", "clause": "visible", "trigger": trig},
+                              "%s: after ending %r the names %r are visible, expected %r"
+                              % (where, shape[d], vis, want_vis)))
+                    break
+    nt = None
+    if first is not None and len(kinds) >= 2:
+        nt = keydigest(("re", case))
+    return {"v": v, "dg": obs, "nt": nt, "out": ("reentrant", trig, tuple(o[2] for o in obs))}
+
+
+# ---- the same in real runs: scope status and run verdict are observed
+RE_FEATURE = u'''Feature: F
+  Scenario: S1
+    Given reg
+    Then noop
+
+  Scenario: S2
+    Given noop
+
+  Rule: R
+    Scenario: S3
+      Given noop
+'''
+RE_RUN_KINDS = RE_KINDS + ("exec",)
+RE_SCOPES = ("testrun", "feature", "rule", "scenario")
+
+
+def reentrant_run_cases(maxn):
+    for n in range(1, maxn + 1):
+        for scope in RE_SCOPES:
+            for kinds in itertools.product(RE_KINDS if scope == "testrun" else RE_RUN_KINDS, repeat=n):
+                yield (scope, kinds)
+
+
+def reentrant_run_case(case):
+    """(scope, kinds in registration order): the cleanups are registered by the before_all /
+    before_feature / before_rule hook or by a step of scenario S1"""
+    import logging
+    from behave import matchers
+    from behave.configuration import Configuration
+    from behave.step_registry import StepRegistry
+    from behave.parser import parse_feature
+    from behave.runner import ModelRunner
+    from io import StringIO
+    scope, kinds = case
+    root = logging.getLogger()
+    saved = (root.level, list(root.handlers), sys.stdout, sys.stderr)
+    matchers.use_step_matcher("parse")
+    log = []
+    excs = {i: Boom((RE_RAISES.get(k, "-"), i)) for i, k in enumerate(kinds)}
+    TMPS = ("tmp0", "tmp1", "tmp2", "nested_tmp")
+
+    def register(context):
+        depth_of = lambda: len(context._stack)      # noqa: E731
+        for i, k in enumerate(kinds):
+            context.add_cleanup(reentrant_cleanup(k, i, context, log, excs, depth_of))
+
+    def noop(context):
+        log.append(("noop", tuple(sorted(n for n in TMPS if n in context))))
+
+    def reg_step(context):
+        if scope == "scenario":
+            register(context)
+
+    hooks = {}
+    if scope != "scenario":
+        hooks[{"testrun": "before_all", "feature": "before_feature", "rule": "before_rule"}[scope]] = \
+            lambda context, *args: register(context)
+    with warnings.catch_warnings():
+        warnings.simplefilter("ignore")
+        try:
+            sys.stdout = StringIO()
+            cfg = Configuration("", load_config=False)
+            reg = StepRegistry()
+            reg.add_step_definition("step", u"reg", reg_step)
+            reg.add_step_definition("step", u"noop", noop)
+            feature = parse_feature(RE_FEATURE, filename="r.feature")
+            runner = ModelRunner(cfg, [feature], step_registry=reg)
+            runner.hooks = hooks
+            runner.formatters = []
+            failed = runner.run()
+        finally:
+            sys.stdout, sys.stderr = saved[2], saved[3]
+            root.setLevel(saved[0])
+            root.handlers[:] = saved[1]
+    rule = [x for x in feature.run_items if type(x).__name__ == "Rule"][0]
+    elements = {"feature": feature, "rule": rule, "scenario": feature.run_items[0]}
+    statuses = {"feature": feature.status.name, "rule": rule.status.name,
+                "S1": feature.run_items[0].status.name, "S2": feature.run_items[1].status.name,
+                "S3": rule.run_items[0].status.name}
+    block, first = reentrant_expected(kinds, lambda tmps: ("noop", tmps))
+    plain = ("noop", ())
+    want = [plain] + (block if scope == "scenario" else []) + [plain, plain] + \
+        (block if scope != "scenario" else [])
+    where = "real run, cleanups %r registered in the %s scope" % (kinds, scope)
+    trig = reentrant_trigger(kinds, first)
+    v = []
+    if log != want:
+        kind, _t = log_diff([("cl",) + tuple(e) for e in log], [("cl",) + tuple(e) for e in want])
+        v.append(({"subcheck": "reentrant-runs", "clause": "cleanup-log", "kind": kind, "trigger": trig},
+                  "%s: events %r, expected %r" % (where, log, want)))
+    elif first is not None:
+        if scope != "testrun" and elements[scope].status.name not in FAILING:
+            v.append(({"subcheck": "reentrant-runs", "clause": "owner-fails", "trigger": trig},
+                      "%s: a cleanup raised but the owning %s has status %s (statuses %r)"
+                      % (where, scope, elements[scope].status.name, statuses)))
+        if not failed:
+            v.append(({"subcheck": "reentrant-runs", "clause": "run-fails", "trigger": trig},
+                      "%s: a cleanup raised but the run verdict is 'passed'" % where))
+    elif failed or any(st != "passed" for st in statuses.values()):
+        v.append(({"subcheck": "reentrant-runs", "clause": "fault-free-run-passes", "trigger": trig},
+                  "%s: no cleanup raises but failed=%r, statuses %r" % (where, failed, statuses)))
+    return {"v": v, "dg": (tuple(log), failed, tuple(sorted(statuses.items()))),
+            "nt": keydigest(("rerun", case)) if (first is not None and len(kinds) >= 2) else None,
+            "out": ("reentrant-run", scope, bool(failed), trig)}
+
+
+# =============================================================================
 # driver
 # =============================================================================
 def run(ctx):
@@ -1724,6 +1994,12 @@ def run(ctx):
     ctx.sweep(e3_case, e3_cases(maxn, custom_upto), chunk=16, name="raising subsets of <= %d registrations" % maxn)
     bounds["raising_subsets"] = {"registrations": maxn, "stack_shapes": len(SHAPES), "subsets": "all",
                                  "custom_error_handler_up_to": custom_upto}
+    # ---- re-entrant cleanups
+    re_n = 3 if quick else 4
+    ctx.sweep(reentrant_case, reentrant_cases(re_n), chunk=64, name="re-entrant cleanups: <= %d per layer, all orders" % re_n)
+    ctx.sweep(reentrant_run_case, reentrant_run_cases(3), chunk=16, name="re-entrant cleanups in real runs: <= 3 per scope")
+    bounds["reentrant_cleanups"] = {"kinds": list(RE_KINDS), "real_run_kinds": list(RE_RUN_KINDS),
+                                    "per_layer": re_n, "per_scope_in_real_runs": 3, "orders": "all"}
     # ---- E1
     probe = ctx.sweep(run_case, [(style, em, (), None) for style in (0, 1, 2, 3) for em in ("ok", "fail")],
                       chunk=1, keep=True, name="real runs: fault-free (counting callbacks)")
